@@ -89,7 +89,7 @@ for pid in sorted(P):
 
 m = {
     "version": 1,
-    "setup_cmd": "cd harness && CARGO_NET_OFFLINE=true cargo build --offline --profile verif --bin vcheck --bin vctl",
+    "setup_cmd": "cd harness && CARGO_NET_OFFLINE=true cargo build --offline --profile verif --bin vcheck --bin vctl --bin vlive",
     "hooks": {
         "guard": "cargo feature verif-hooks (srtla-core/verif-hooks + srtla_send/verif-hooks, implies test-internals); off by default",
         "enable": "harness/Cargo.toml depends on ../../repo and ../../repo/crates/srtla-core by path with features = [\"verif-hooks\"]; every ./check runs cargo build first",
